@@ -72,7 +72,9 @@ pub fn check_lp_export(lm: &LinearModel) -> Result<(), (String, String)> {
             rooc::Comparison::LessOrEqual => "<=",
             rooc::Comparison::GreaterOrEqual => ">=",
             rooc::Comparison::Equal => "=",
-            _ => continue,
+            // the LP format has no strict relations: the closed row is the nearest thing it can say
+            rooc::Comparison::Less => "<=",
+            rooc::Comparison::Greater => ">=",
         };
         if r.rel != want_rel {
             return Err(("row-relation-mismatch".into(), format!("row {i}: {} vs {}", want_rel, r.rel)));
@@ -147,6 +149,11 @@ impl Driver for C17 {
                 use rand::Rng;
                 if spec.sense != "satisfy" && rng.gen_range(0..8) == 0 {
                     spec.offset = [0.000004, -0.0000002, 0.00000951, -0.000003][rng.gen_range(0..4)];
+                }
+                if rng.gen_range(0..10) == 0 && !spec.rows.is_empty() {
+                    // strict rows (accepted by the model API, the builder and the text language)
+                    let i = rng.gen_range(0..spec.rows.len());
+                    spec.rows[i].rel = ["<", ">"][rng.gen_range(0..2)].to_string();
                 }
                 if rng.gen_range(0..10) == 0 && !spec.rows.is_empty() && !spec.vars.is_empty() {
                     let (i, j) = (rng.gen_range(0..spec.rows.len()), rng.gen_range(0..spec.vars.len()));
